@@ -10,23 +10,10 @@ from vlib import Case
 
 LEVEL = "proof"
 
-# Two places where the code disagrees with the specification inside the property's quantifier
-# (see coq/C15/Properties.v: ..._refuted).  While a flag is False the corresponding inputs are
-# left out of the generated histories; when it is True a disagreement whose signature is listed in
-# /verif/known_findings.json is reported as a known finding, anything else as a violation.
-CAPTURE = True       # uses of a stored group value: `level.c1 = $a` ... later `level.c1.size`   (origin "capture")
-FIELD_GROUP = True   # field assignment to a group: `$a.tag = 1` with two or more objects named a
-
-FLAG = re.compile(r" f=(\d)")
-
-
-def strip_flag(line):
-    return FLAG.sub("", line, count=1)
-
-
-def flag_of(line):
-    m = FLAG.search(line)
-    return int(m.group(1)) if m else 0
+# histories that store a `$n` result in a variable and use it later (origin "capture").  The
+# stored-group defects (alias of the live list, dangling entry) are fixed in /repo (8228a47): the
+# histories are part of the default generation and any disagreement is a violation.
+CAPTURE = True
 
 
 class C15(vlib.HistoryProp):
@@ -37,16 +24,15 @@ class C15(vlib.HistoryProp):
     coq_dirs = ["Base", "C15"]
     has_monitor = False
     batch = 1500
-    _stash = None
 
     def assumptions(self):
         return ["objects are instances of a host class derived from SimpleEntity; 4 names + the explicit name \"\" + never-named objects, at most 8 objects",
                 "every `$name` expression, command and field assignment runs as a freshly compiled script on one engine per history; values are reported to the host through a command argument",
-                "the Debug stream is attached (an empty `$name` raises the NoTarget warning); warnings are compared as classes (NoTarget, Null, Cast, Range), not as text",
-                "handlers: targetname, remove (both built in), mark and kill j (host events that log the receiver; kill deletes object j)",
-                "the VM, parser and event dispatch are not modelled (C01-C05, C08 are about them)",
-                "CAPTURE=%s FIELD_GROUP=%s: histories using a stored group value / assigning a field to a group are %s" % (
-                    CAPTURE, FIELD_GROUP, "included" if CAPTURE and FIELD_GROUP else "left out where the flag is False (the code is known to disagree there: Properties.v ..._refuted)")]
+                "the Debug stream is attached (an empty `$name` raises the NoTarget warning); warnings are compared as classes (NoTarget, Null, Cast, Range, Fail), not as text",
+                "handlers: commands targetname, remove (built in), mark, kill j (host events that log the receiver; kill deletes object j); fields tag (plain variable), targetname (built-in setter), "
+                "fuse j (host setter that logs the receiver and raises a script error for object j), zap j (host setter that logs the receiver and deletes object j)",
+                "the receivers of a plain-field store are found by looking at the objects afterwards, so their order is not observed (the order of setter stores and commands is)",
+                "the VM, parser and event dispatch are not modelled (C01-C05, C08 are about them)"]
 
     # ------------------------------------------------------------------ generation
     def rand_target(self, rng, names, capture):
@@ -64,6 +50,16 @@ class C15(vlib.HistoryProp):
             return "K %d" % rng.randint(1, max(1, nobj))
         return "R"
 
+    def rand_fld(self, rng, names, nobj):
+        r = rng.random()
+        if r < 0.25:
+            return "G"
+        if r < 0.55:
+            return "T %d" % rng.choice(names)
+        if r < 0.80:
+            return "U %d" % rng.randint(1, max(1, nobj) + 1)
+        return "Z %d" % rng.randint(1, max(1, nobj))
+
     def walk(self, rng, length, cid, names, capture, origin):
         ops, nobj = [], 0
         for _ in range(rng.choice([1, 2, 3, 4])):
@@ -75,38 +71,60 @@ class C15(vlib.HistoryProp):
             if r < 0.14 and nobj < 8:
                 ops.append("%s %d" % (rng.choice("Ss"), rng.choice(names + [0] if rng.random() < 0.3 else names)))
                 nobj += 1
-            elif r < 0.30:
+            elif r < 0.28:
                 ops.append("%s %d %d" % (rng.choice("Nne"), k, rng.choice(names + [0] if rng.random() < 0.1 else names)))
-            elif r < 0.38:
+            elif r < 0.35:
                 ops.append("%s %d" % (rng.choice("Rrd"), k))
-            elif r < 0.50:
+            elif r < 0.46:
                 ops.append("Q " + self.rand_target(rng, names, capture))
-            elif r < 0.57:
+            elif r < 0.52:
                 ops.append("Z " + self.rand_target(rng, names, capture))
-            elif r < 0.67:
+            elif r < 0.61:
                 ops.append("I %s %d" % (self.rand_target(rng, names, capture), rng.choice([0, 1, 1, 2, 2, 3, 4, 9])))
-            elif r < 0.88:
+            elif r < 0.78:
                 ops.append("C %s %s" % (self.rand_target(rng, names, capture), self.rand_cmd(rng, names, nobj)))
             elif r < 0.93:
-                ops.append("F n%d" % rng.choice(names))      # (a field assignment to a stored group would be both defects at once)
+                ops.append("F %s %s" % (self.rand_target(rng, names, capture), self.rand_fld(rng, names, nobj)))
             elif capture:
                 ops.append("K %d %d" % (rng.choice([1, 1, 2]), rng.choice(names)))
             else:
                 ops.append("Q n%d" % rng.choice(names))
         ops += ["Q n%d" % n for n in sorted(set(names))]
+        if capture:
+            ops += ["Q c1", "Q c2"]
         return Case(cid, "", ops, origin)
 
     EX_ALPHA = ["S 1", "s 2", "S 0", "N 1 2", "n 2 1", "e 3 1", "R 1", "r 2",
-                "Q n1", "I n1 2", "Z n2", "C n1 M", "C n1 T 2", "C n2 T 2", "C n1 R", "C n1 K 2", "C n2 K 1", "F n1"]
+                "Q n1", "I n1 2", "Z n2", "C n1 M", "C n1 T 2", "C n2 T 2", "C n1 R", "C n1 K 2", "C n2 K 1",
+                "F n1", "F n1 T 2", "F n1 T 1", "F n1 U 2", "F n1 Z 2", "K 1 1", "Q c1", "F c1 T 2"]
+    EX_ALPHA4 = ["S 1", "N 1 2", "n 2 1", "R 1", "Q n1", "C n1 M", "C n1 T 2", "C n1 K 2", "C n1 R",
+                 "F n1", "F n1 T 2", "F n1 U 2", "F n1 Z 2", "K 1 1", "Q c1", "F c1 T 2"]
     EX_SETUPS = [["S 1", "s 1"], ["S 1", "s 1", "S 2"], ["s 1", "S 1", "s 1"]]
 
-    def candidates(self, tier, seed):
+    def field_family(self):
+        """field stores to groups of 2..4 members (the former field-group / stored-group findings):
+        every field variant, applied to `$1` and to a stored `$1`, after every way of changing the
+        group between the storing and the use"""
+        cases, k = [], 0
+        for g in (2, 3, 4):
+            flds = ["G", "T 1", "T 2", "T 0"] + ["U %d" % j for j in range(1, g + 3)] + ["Z %d" % j for j in range(1, g + 2)]
+            mods = [[], ["S 1"], ["R 1"], ["R %d" % g], ["C n1 T 2"], ["C n1 R"], ["n 1 1"], ["F n1 T 3"]]
+            for f in flds:
+                for tgt in ("n1", "c1"):
+                    for mod in mods:
+                        ops = ["%s 1" % "Ss"[i % 2] for i in range(g)] + ["S 2", "K 1 1"] + mod + \
+                              ["F %s %s" % (tgt, f), "Q n1", "Q n2", "Q n3", "Q c1", "Z c1", "C c1 M"]
+                        cases.append(Case("f%d" % k, "", ops, "field-family-%dmembers" % g))
+                        k += 1
+        return cases
+
+    def gen(self, tier, seed):
         rng = random.Random(seed)
         cases = []
         for p in sorted(glob.glob(os.path.join(vlib.VERIF, "corpus", "C15", "*.txt"))):
             lines = [l.strip() for l in open(p) if l.strip() and not l.startswith("#")]
-            origin = "capture" if os.path.basename(p).startswith("capture") else "corpus"
-            cases.append(Case("c_" + os.path.basename(p)[:-4], "", lines, origin))
+            cases.append(Case("c_" + os.path.basename(p)[:-4], "", lines, "corpus"))
+        cases += self.field_family()
         k = 0
         for si, setup in enumerate(self.EX_SETUPS):
             if tier == "quick":
@@ -114,110 +132,39 @@ class C15(vlib.HistoryProp):
             else:
                 maxlen = 4 if si == 0 else 3
             for n in range(1, maxlen + 1):
-                for tup in itertools.product(self.EX_ALPHA, repeat=n):
-                    cases.append(Case("e%d" % k, "", setup + list(tup) + ["Q n1", "Q n2"], "exhaustive-len%d" % n))
+                for tup in itertools.product(self.EX_ALPHA4 if n == 4 else self.EX_ALPHA, repeat=n):
+                    cases.append(Case("e%d" % k, "", setup + list(tup) + ["Q n1", "Q n2", "Q c1"], "exhaustive-len%d" % n))
                     k += 1
         if tier == "quick":
             walks = [(10, 3000, [1, 2]), (16, 1500, [1, 2, 3, 5]), (40, 400, [1, 2, 3, 4, 5]), (120, 30, [1, 2, 3])]
-            cwalks = [(12, 1500, [1, 2]), (30, 300, [1, 2, 5])]
+            cwalks = [(12, 2000, [1, 2]), (30, 400, [1, 2, 5])]
         else:
             walks = [(10, 15000, [1, 2]), (16, 10000, [1, 2, 3, 5]), (40, 3000, [1, 2, 3, 4, 5]), (200, 150, [1, 2, 3])]
-            cwalks = [(12, 8000, [1, 2]), (30, 2000, [1, 2, 5])]
+            cwalks = [(12, 10000, [1, 2]), (30, 3000, [1, 2, 5]), (200, 100, [1, 2, 3])]
         for length, cnt, names in walks:
             for _ in range(cnt):
                 cases.append(self.walk(rng, length, "w%d" % k, names, False, "random-walk-%dnames" % len(names)))
                 k += 1
-        if True:
+        if CAPTURE:
             for length, cnt, names in cwalks:
                 for _ in range(cnt):
                     cases.append(self.walk(rng, length, "k%d" % k, names, True, "capture"))
                     k += 1
-        return cases
-
-    # which histories one pass runs: "main" = no stored values, no field assignment to a group;
-    # "field-group" / "stored-group-alias" / "stored-group-dangling" = the histories that contain
-    # such a use, with only that class of disagreement reported (one pass per class, so that
-    # each class is shrunk and matched against the known findings separately)
-    mode = "main"
-
-    def drop_group_fields(self, cases):
-        """remove the field assignments that hit a `$n` group (the model raises flag 1 there; the
-        op changes nothing in the model, so the flags of the other ops stay as they are)"""
-        drv = vlib.ocaml_driver("C15")
-        dropped = 0
-        for i in range(0, len(cases), 4000):
-            chunk = [c for c in cases[i:i + 4000] if any(o.startswith("F n") for o in c.ops)]
-            if not chunk:
-                continue
-            out, _ = vlib.run_resilient(drv, ["model"], chunk, timeout=self.timeout)
-            for c in chunk:
-                m = [l for l in out.get(c.id, []) if l.startswith("m ")]
-                if len(m) != len(c.ops):
-                    continue
-                keep = [o for o, l in zip(c.ops, m) if not (o.startswith("F n") and flag_of(l) == 1)]
-                dropped += len(c.ops) - len(keep)
-                c.ops = keep
-        return dropped
-
-    def gen(self, tier, seed):
-        cases = self.candidates(tier, seed)
-        if self.mode == "main":
-            cases = [c for c in cases if c.origin != "capture"]
-            self.dropped_field_ops = self.drop_group_fields(cases)
-        elif self.mode == "field-group":
-            cases = [c for c in cases if c.origin != "capture" and any(o.startswith("F n") for o in c.ops)]
         else:
-            cases = [c for c in cases if c.origin == "capture"]
-            if not FIELD_GROUP:
-                self.drop_group_fields(cases)
+            cases = [c for c in cases if not any(re.search(r"\bc\d", o) or o.startswith("K ") for o in c.ops)]
         return cases
 
     # ------------------------------------------------------------------ comparison
     def canon_model(self, lines):
         m = [l[2:] for l in lines if l.startswith("m ")]
         s = [l[2:] for l in lines if l.startswith("s ")]
-        ok = len(m) == len(s)
-        for a, b in zip(m, s):
-            fa, fb = flag_of(a), flag_of(b)
-            if fa != fb:
-                ok = False
-                break
-            if fa == 2:
-                break               # nothing is claimed from the first use of a stored group on
-            if fa == 0 and a != b:
-                ok = False
-                break
-        undef = next((i for i, l in enumerate(m) if l.startswith("undef")), len(m))
-        self._stash = (m, s, undef)
-        return [strip_flag(l) for l in m[:undef]], [], ok
+        return m, [], m == s
 
     def canon_impl(self, lines):
-        i_lines = [l[2:] for l in lines if l.startswith("m ")]
-        direct = []
-        undef = len(i_lines)
-        if self._stash is not None:
-            m, s, undef = self._stash
-            self._stash = None
-            for k, (im, sp) in enumerate(zip(i_lines, s)):
-                f = flag_of(sp)
-                if f and im != strip_flag(sp):
-                    what = "field-group" if f == 1 else ("stored-group-dangling" if k >= undef else "stored-group-alias")
-                    if what != self.mode:
-                        continue
-                    direct.append("%s: op %d: specification=%s implementation=%s" % (what, k, strip_flag(sp), im))
-        return i_lines[:undef], [], direct, None
-
-    def signature(self, case, rec, v):
-        if v["kind"] == "direct":
-            return "C15-" + v["why"].split(":")[0]
-        if v["kind"] in ("crash", "timeout") and any(o.startswith("K ") for o in case.ops):
-            m = rec.get("m_cmp")
-            if m is not None and len(m) < len(case.ops):
-                return "C15-stored-group-dangling-" + v["kind"]
-        return v["kind"]
+        return [l[2:] for l in lines if l.startswith("m ")], [], [], None
 
     def nontrivial(self, case, compared):
-        # some `$n` denoted a group and a command reached at least two objects
+        # some target denoted a group, or a command / field store reached at least two objects
         return any(re.search(r"log=\d+,\d+", c) for c in compared) or any(c.startswith("grp:") for c in compared)
 
 
@@ -225,27 +172,16 @@ HP = C15()
 
 
 def check(res, tier, seed):
-    res.cov["rule"] += ("C15: corpus; every sequence of <= 3 (thorough: 4) ops from an 18-letter alphabet (spawn/rename/destroy by host and by script, "
-                        "`$n`, `$n.size`, `$n[i]`, `$n mark|targetname|remove|kill`, `$n.tag=`) after a set-up with a group (two more set-ups: <= 2 (3) ops), closed by `$1`,`$2`; seeded random "
-                        "walks of 10-120 (200) ops over 2-5 names (incl. \"\" and never-named objects) and <= 8 objects, commands on 0/1/many members, kill of an "
-                        "earlier/later/own member during the fan-out, re-naming with the same name, ops on dead objects; every observation carries the whole "
-                        "table. Non-trivial = a group value was observed or a command reached >= 2 objects. ")
-    HP.mode = "main"
+    res.cov["rule"] += ("C15: corpus (incl. the former findings and the 255-allocation slot-reuse history); a systematic family of field stores (plain, targetname, failing "
+                        "setter, destroying setter) to groups of 2-4 applied to `$1` and to a stored `$1` after 8 ways of changing the group; every sequence of <= 3 "
+                        "(thorough: 4, over 16 of the letters) ops from a 25-letter alphabet (spawn/rename/destroy by host and by script, `$n`, `$n.size`, `$n[i]`, `$n mark|targetname|remove|kill`, "
+                        "field stores, store and use of `level.c1 = $1`) after a set-up with a group (two more set-ups: <= 2 (3) ops); seeded random walks of 10-120 (200) ops over "
+                        "2-5 names (incl. \"\" and never-named objects) and <= 8 objects, with and without stored values: commands and field stores on 0/1/many members, "
+                        "kill/zap of an earlier/later/own member during the fan-out, a failing setter at every position, re-naming with the same name, ops on dead objects; "
+                        "every observation carries the whole table. Non-trivial = a group value was observed or a command/store reached >= 2 objects. ")
     vlib.history_check(res, HP, tier, seed)
-    passes = (["field-group"] if FIELD_GROUP else []) + (["stored-group-alias", "stored-group-dangling"] if CAPTURE else [])
-    for mode in passes:
-        HP.mode = mode
-        vlib.history_check(res, HP, tier, seed, proof=False)
-    HP.mode = "main"
-    res.cov["flags"] = {"CAPTURE": CAPTURE, "FIELD_GROUP": FIELD_GROUP, "extra_passes": passes,
-                        "field_ops_left_out": getattr(HP, "dropped_field_ops", 0)}
+    res.cov["flags"] = {"CAPTURE": CAPTURE}
 
 
 def replay(path):
-    import json
-    sig = json.load(open(path)).get("signature", "")
-    HP.mode = sig[4:] if sig.startswith("C15-") and sig[4:] in ("field-group", "stored-group-alias", "stored-group-dangling") else "main"
-    try:
-        return vlib.history_replay(HP, path)
-    finally:
-        HP.mode = "main"
+    return vlib.history_replay(HP, path)
